@@ -21,6 +21,15 @@ def gen(rng, tier):
             obs.append(True)
         cmds.append("dump 0"); obs.append(False)
         out.append(Scenario(cmds, obs, tags=("history",)))
+    # long histories: hundreds of keys in dozens of sections (array growth far beyond the pre-allocated slots)
+    for count in ((300, 1200) if tier == "quick" else (300, 1200, 5000)):
+        cmds = gens.start_cmds(rng, 0); obs = [False] * len(cmds)
+        for i in range(count):
+            g = rng.choice([None, b"S%d" % (i % 70), b"S%d" % rng.randrange(70)])
+            cmds.append("set 0 string %s %s %s 0" % (gens.enc(g), gens.enc(b"key%d" % rng.randrange(count // 2)), gens.enc(b"v%d" % i))); obs.append(True)
+            if i % 9 == 0: cmds.append("get 0 string %s %s -" % (gens.enc(g), gens.enc(b"key%d" % rng.randrange(count // 2)))); obs.append(True)
+        cmds += ["groups 0", "keys 0 -", "keys 0 " + gens.enc(b"S3"), "dump 0"]; obs += [True, True, True, False]
+        out.append(Scenario(cmds, obs, tags=("long-history",)))
     # calls without object
     out.append(Scenario(["set 5 string - x6b x76 0", "get 5 int - x6b -", "groups 5", "keys 5 -"], tags=("noobject",)))
     return out
